@@ -1,10 +1,11 @@
-from . import cli, streams_tables, streams_par, streams_gathermeshb
+from . import cli, streams_tables, streams_par, streams_gathermeshb, streams_physdist
 
 ID = 'C07'
 PROPS_MODULE = ['Refine.Props.C07', 'Refine.Props.C07Gather', 'Refine.Props.C07GatherMeshb']
 STREAMS = [streams_tables.PART, streams_par.GATHER_NODE, streams_par.GATHER_CELL, streams_par.GATHER_FILE,
            streams_gathermeshb.GATHERMESHB,
-           cli.NPINDEP, cli.CONVERT_MPI, cli.DISTANCE_MPI, cli.INTERP_MPI]
+           cli.NPINDEP, cli.CONVERT_MPI, cli.DISTANCE_MPI, cli.INTERP_MPI,
+           streams_physdist.PAR, streams_physdist.TAGS]
 EXPLANATION = ('Proved over the macros generated from ref_part.h: implicit block partition is a partition of [0,N) '
                'into np contiguous blocks whose sizes differ by at most one, and ref_part_implicit returns the unique '
                'block owner (for all N>=1, np>=1). '
